@@ -891,9 +891,6 @@ where
             Self::handle_opts(&opts, status);
         };
 
-        // We got an answer, reset the timer
-        status.state = ConnState::Active(Some(Instant::now()));
-
         let id = answer.header().id();
 
         // Get the correct query and send it the reply.
@@ -901,10 +898,15 @@ where
             Some(req) => req,
             None => {
                 // No query with this ID. We should
-                // mark the connection as broken
+                // mark the connection as broken. Do not reset the
+                // timer: unsolicited messages must not keep outstanding
+                // queries waiting beyond the response timeout.
                 return;
             }
         };
+
+        // We got an answer for an outstanding query, reset the timer
+        status.state = ConnState::Active(Some(Instant::now()));
         let mut send_eof = false;
         let answer = if match &req.msg {
             ReqSingleMulti::Single(msg) => msg.is_answer(answer.for_slice()),
